@@ -26,7 +26,8 @@ type sndWorld struct {
 	// used first). It is NOT the reference of the property (that is "the last 100 notifications"); it only
 	// serves to recognise the recorded finding exactly: a loss is the known one iff the missing notifications
 	// are precisely those this cache has evicted.
-	promo []uint64
+	promo  []uint64
+	others int
 }
 
 func (sw *sndWorld) promoTouch(k uint64, insert bool) {
@@ -236,9 +237,27 @@ func (sw *sndWorld) stepNotify(ctrs *[]uint64, op string, judge bool) (viol []st
 		sw.promoTouch(uint64(*c), true)
 		digest = "notify"
 	case "other":
-		// a datagram that is no notification takes a message counter of the same connection
-		if err := sw.s.ResultSuccess(&model.HeaderType{AddressSource: sndDest(1), AddressDestination: sw.src, MsgCounter: ptrCtr(7)}, sw.src); err != nil {
-			return []string{"ResultSuccess failed"}, "other:error"
+		// a datagram that is no notification takes a message counter of the same connection: a result, a write,
+		// a reply or a request, in turn (f[1] when given, else by the position in the history)
+		kind := []string{"result", "write", "reply", "request"}[sw.others%4]
+		if len(f) > 1 {
+			kind = f[1]
+		}
+		sw.others++
+		var err error
+		hdr := &model.HeaderType{AddressSource: sndDest(1), AddressDestination: sw.src, MsgCounter: ptrCtr(7)}
+		switch kind {
+		case "result":
+			err = sw.s.ResultSuccess(hdr, sw.src)
+		case "write":
+			_, err = sw.s.Write(sw.src, sndDest(1), model.CmdType{MeasurementListData: &model.MeasurementListDataType{}})
+		case "reply":
+			err = sw.s.Reply(hdr, sw.src, model.CmdType{MeasurementListData: &model.MeasurementListDataType{}})
+		case "request":
+			_, err = sw.s.Request(model.CmdClassifierTypeRead, sw.src, sndDest(sw.others+10), false, []model.CmdType{{MeasurementListData: &model.MeasurementListDataType{}}})
+		}
+		if err != nil {
+			return []string{"sending a " + kind + " failed"}, "other:error"
 		}
 		digest = "other"
 	case "get":
@@ -300,12 +319,13 @@ func c13NotifyDriver() *engine.HDriver {
 		}
 		starts = append(starts, h)
 	}
-	var alt []string
+	var alt, altW []string
 	for i := 0; i < 60; i++ {
 		alt = append(alt, "notify", "other")
+		altW = append(altW, "notify", "other:write")
 	}
-	starts = append(starts, alt)
-	return &engine.HDriver{Name: "notify-cache", Alphabet: []string{"notify", "get:oldest", "get:second", "get:newest", "get:evicted", "other"}, Starts: starts,
+	starts = append(starts, alt, altW)
+	return &engine.HDriver{Name: "notify-cache", Alphabet: []string{"notify", "get:oldest", "get:second", "get:newest", "get:evicted", "other", "other:write"}, Starts: starts,
 		Step: func(hist []string, op string) engine.HStep {
 			sw := newSndWorld()
 			var ctrs []uint64
